@@ -498,7 +498,11 @@ fn execute_history(run: &Run, opts: &ExecOpts) -> Outcome {
         }
     }
     for (k, v) in &run.gen_faults {
-        *cx.out.stats.fired.entry(k.clone()).or_insert(0) += v;
+        if k.starts_with("edit:") {
+            *cx.out.stats.probes.entry(k.clone()).or_insert(0) += v;
+        } else {
+            *cx.out.stats.fired.entry(k.clone()).or_insert(0) += v;
+        }
     }
     cx.out.log_hash = cx.log;
     cx.out.history_hash = hist;
